@@ -1,5 +1,6 @@
 import MosnVerif.Lemmas.Updates
 import MosnVerif.Lemmas.UpdatesRm
+import MosnVerif.Lemmas.DumpScript
 /-!
 # C12 — runtime updates are coherent and reproducible from the dumped config (property theorems only)
 
@@ -426,6 +427,86 @@ not listed, each once, stored = live, nothing listed still served) is true of th
 theorem spec_rm_holds_on_model (o : Oracle) (hosts : List Host) (addrs : List String) :
     Spec.rmHolds (hosts.map (·.addr)) addrs (rmObserve o hosts addrs) = true :=
   rmHolds_on_model o hosts addrs
+
+/-! ## the persisted file: every update reaches the dumped file (`DumpConfig` / `getDump` / `setDump`, `auto_config` on)
+
+`Model/DumpProto`: the effective config and the file are version numbers, `dumping` is the shared flag, the dumper and any number
+of mutators run the REGENERATED decision trees (`Gen.DumpProto.dumpConfig`, `setDump`) one atomic action per schedule entry;
+file writes succeed or fail as the schedule says. -/
+section dump
+open MosnVerif.Model.DumpProto MosnVerif.Gen.DumpProto
+
+/-- the regenerated `DumpConfig` and `setDump` have the discipline the theorems below need (`disc`: a request that was taken away
+— flag cleared — is always followed, in the same round, by a snapshot and a successful write of it, or the flag is raised again;
+`quietOk`: an undisturbed round started with a pending request ends with a current file; `setOk`: a request leaves the flag
+raised), every writer of the effective config except `Reset` / `SetMosnConfig` requests a dump after its writes, `tryDump` is
+gated by `auto_config` only, and the snapshot is taken under the config read lock. -/
+theorem dump_protocol_discipline : protocolOk = true := by decide
+
+/-- **file behind ⇒ request pending** (the invariant): for every dump-round program and request program with the discipline, every
+number of mutators and EVERY schedule (updates landing at any point of a dump round, failing writes): whenever the dumper is
+between two rounds and no mutator is inside its request, a file that is not the effective config has the flag raised — the
+next round will dump. -/
+theorem dump_file_behind_flag_set (prog setp : Prog) (hd : disc .clean false prog = true) (hs : setOk setp = true)
+    (sched : List Ev) (hidle : (run (initConf prog setp) sched).d.rest = .done)
+    (hm : ∀ t, (run (initConf prog setp) sched).m t = .idle)
+    (hne : (run (initConf prog setp) sched).file ≠ (run (initConf prog setp) sched).live) :
+    (run (initConf prog setp) sched).flag = 1 := by
+  rcases behind_flag (inv_run (inv_init prog setp hd hs) sched) hidle hm with h | h
+  · exact absurd h hne
+  · exact h
+
+/-- **dump_eventually_current**: for every schedule `sched` (any history of updates and dump rounds, interleaved action by
+action), once it has brought the dumper between two rounds with no mutator inside a request, ONE more dump round that runs to
+completion with no further update and a successful write leaves file = effective config. -/
+theorem dump_eventually_current (prog setp : Prog) (hd : disc .clean false prog = true) (hq : quietOk prog = true)
+    (hs : setOk setp = true) (sched : List Ev) (hidle : (run (initConf prog setp) sched).d.rest = .done)
+    (hm : ∀ t, (run (initConf prog setp) sched).m t = .idle) :
+    (run (run (initConf prog setp) sched)
+        (.dump true :: List.replicate (quietLen prog (run (initConf prog setp) sched).flag) (.dump true))).file =
+      (run (initConf prog setp) sched).live ∧
+    (run (run (initConf prog setp) sched)
+        (.dump true :: List.replicate (quietLen prog (run (initConf prog setp) sched).flag) (.dump true))).d.rest = .done := by
+  have hp : (run (initConf prog setp) sched).prog = prog := (run_progs _ sched).1
+  have := quiet_round_current (inv_run (inv_init prog setp hd hs) sched) (by rw [hp]; exact hq) hidle hm
+  rw [hp] at this
+  exact ⟨this.1.trans this.2.2, this.2.1⟩
+
+/-- … for the code as it is (regenerated programs). -/
+theorem dump_eventually_current_mosn (sched : List Ev)
+    (hidle : (run (initConf dumpConfig setDump) sched).d.rest = .done)
+    (hm : ∀ t, (run (initConf dumpConfig setDump) sched).m t = .idle) :
+    (run (run (initConf dumpConfig setDump) sched)
+        (.dump true :: List.replicate (quietLen dumpConfig (run (initConf dumpConfig setDump) sched).flag) (.dump true))).file =
+      (run (initConf dumpConfig setDump) sched).live :=
+  (dump_eventually_current dumpConfig setDump (by decide) (by decide) (by decide) sched hidle hm).1
+
+-- non-vacuity: an update lands between the snapshot and the write of a round; the schedule ends idle with the file behind and
+-- the flag raised; the next round makes the file current
+example :
+    let c := run (initConf dumpConfig setDump) [.upd 1, .upd 1, .upd 1, .dump true, .dump true, .dump true, .upd 2, .upd 2, .upd 2, .dump true]
+    c.d.rest = .done ∧ c.m 1 = .idle ∧ c.m 2 = .idle ∧ c.file = 1 ∧ c.live = 2 ∧ c.flag = 1 ∧
+    (run c (.dump true :: List.replicate (quietLen dumpConfig c.flag) (.dump true))).file = 2 := by decide
+
+/-- **clear_after_write_loses_update** (negative witness, machine-checked): a round that only READS the flag at its start and
+clears it AFTER the write violates the discipline, and the schedule "round starts, reads the flag, snapshots; an update lands
+and raises the (already raised) flag; the round writes and clears the flag" ends between two rounds, all mutators idle, with the
+file behind the effective config and NO request pending: the next round does nothing, the update is never dumped. -/
+theorem clear_after_write_loses_update :
+    disc .clean false clearAfterWrite = false ∧
+    (let c := run (initConf clearAfterWrite setDump)
+        [.upd 1, .upd 1, .upd 1, .dump true, .dump true, .dump true, .upd 2, .upd 2, .upd 2, .dump true, .dump true]
+     c.d.rest = .done ∧ c.m 1 = .idle ∧ c.m 2 = .idle ∧ c.file = 1 ∧ c.live = 2 ∧ c.flag = 0 ∧
+     (run c [.dump true, .dump true]).d.rest = .done ∧ (run c [.dump true, .dump true]).file = 1) := by decide
+
+/-- the predicate of the `dump` cases (after every round: file behind ⇒ request pending; a round with no update inside and a
+successful write leaves the file current) is true of the model's observations of EVERY script of updates and rounds (updates
+injected before / after the snapshot, failing writes). -/
+theorem spec_dump_holds_on_model (items : List Item) :
+    Spec.dumpHolds items (runScript (initConf dumpConfig setDump) items) = true :=
+  dumpHolds_runScript items _ (inv_init _ _ (by decide) (by decide)) (by decide) ⟨rfl, fun _ => rfl⟩
+
+end dump
 
 /-! ## non-vacuity: concrete histories exercising the hypotheses -/
 section examples
